@@ -1,11 +1,16 @@
 // K-C11: correspondence / oracle harness for Shark's evolution strategies and direct-search methods.
 //
-//   obj sphere <n> | quad <n> <A n*n> <b n> | rosen <n>
+//   obj sphere <n> | quad <n> <A n*n> <b n> | rosen <n> | plateau <n>      (plateau = floor(4*|x|^2)/4: ties)
 //   box <l n> <u n>   |   softbox <l n> <u n>   (feasibility predicate + closestFeasible without the constraint feature flag)
-//   opt cma <lambda> <mu> <recomb 0|1|2> <sigma> | cmsa | ecma | vdcma | cem | simplex      (lambda 0 = defaults)
-//   run <seed> <steps> <x0 n>        init + steps; prints the final solution, a trace digest and the oracle verdicts
-//   coeffs <n> <lambda> <mu> <recomb>   CMA::doInit coefficients (compared bit for bit with Model/CMA.lean)
+//   opt <kind> [<lambda> <mu> <recomb 0|1|2> <sigma>]   kind = cma | cmsa | ecma | vdcma | lmcma | cem | simplex
+//        lambda 0 = the class' default population sizes; sigma 0 = default initial step size (cem: variance)
+//   run <seed> <steps> <target> <x0 n>   init + steps, 7 runs: fresh, fresh again, RE-INITIALISED used object, 3 exact
+//        rescalings of f, (all with the same seed); prints the final solution, a digest and the oracle verdicts
+//   coeffs <kind> <n> <lambda> <mu> <recomb>   strategy constants of the initialised object (compared bit for bit with the
+//        formulas regenerated from the C++, Gen/CMAParams.lean) + admissibility oracle
 //   cmatrace <seed> <steps> <x0 n>   CMA run printing, per step, everything updatePopulation consumed and produced
+//   ecmatrace | cmsatrace | cemtrace <seed> <steps> <x0 n>   same for ElitistCMA::step, CMSA::updatePopulation, CrossEntropyMethod
+//   simplexrun <steps> <x0 n>        the whole SimplexDownhill run (deterministic), re-computed by the model from x0
 //
 // numbers are IEEE-754 bit patterns "x<16 hex digits>".
 // Oracle (after init and after every step, on the real code, independent of the Lean model):
@@ -35,6 +40,10 @@
 #include <shark/Algorithms/DirectSearch/CMSA.h>
 #include <shark/Algorithms/DirectSearch/ElitistCMA.h>
 #include <shark/Algorithms/DirectSearch/VDCMA.h>
+// LMCMA.h calls `gauss(*mpe_rng,0,1)` unqualified and does not compile on its own (observation in findings_proposed/C11.md);
+// LM-CMA is not named by C11, it is exercised as an extra with this using-declaration as the only work-around
+namespace shark{ using random::gauss; }
+#include <shark/Algorithms/DirectSearch/LMCMA.h>
 #include <shark/Algorithms/DirectSearch/CrossEntropyMethod.h>
 #include <shark/Algorithms/DirectSearch/SimplexDownhill.h>
 #undef private
@@ -74,6 +83,16 @@ static bool sameVec(RealVector const& a, RealVector const& b){
 	return true;
 }
 
+template<class M> static std::string hexMatG(M const& m){
+	std::string s;
+	for(std::size_t i = 0; i != m.size1(); ++i) for(std::size_t j = 0; j != m.size2(); ++j){ if(i + j) s += ","; s += hexd(m(i,j)); }
+	return s;
+}
+template<class V> static bool finiteVec(V const& v){
+	for(std::size_t i = 0; i != v.size(); ++i) if(!std::isfinite(v(i))) return false;
+	return true;
+}
+
 struct Obj: public SingleObjectiveFunction{
 	int kind; std::size_t n; std::vector<double> A, b;
 	BoxConstraintHandler<RealVector> handler; bool boxed;
@@ -88,9 +107,13 @@ struct Obj: public SingleObjectiveFunction{
 	void setSoftBox(RealVector const& l, RealVector const& u){ handler.setBounds(l, u); soft = true; }
 	bool isFeasible(RealVector const& x) const{ return soft ? handler.isFeasible(x) : SingleObjectiveFunction::isFeasible(x); }
 	void closestFeasible(RealVector& x) const{ if(soft) handler.closestFeasible(x); else SingleObjectiveFunction::closestFeasible(x); }
+	// plain scalar loops: the Lean driver evaluates the same expressions at Float (simplexrun)
 	double raw(RealVector const& x) const{
 		double v = 0.0;
-		if(kind == 2){ for(std::size_t i = 0; i != n; ++i) v = v + x(i) * x(i); }
+		if(kind == 2 || kind == 3){
+			for(std::size_t i = 0; i != n; ++i) v = v + x(i) * x(i);
+			if(kind == 3) v = std::floor(4.0 * v) * 0.25;
+		}
 		else if(kind == 0){
 			for(std::size_t i = 0; i != n; ++i){
 				double r = 0.0;
@@ -118,7 +141,13 @@ struct Obj: public SingleObjectiveFunction{
 	}
 };
 
-struct Config{ std::string kind; std::vector<double> p; };
+struct Config{
+	std::string kind; std::vector<double> p;
+	std::size_t lambda() const{ return p.size() >= 4 && p[0] > 0 ? (std::size_t)p[0] : 0; }
+	std::size_t mu() const{ return p.size() >= 4 ? (std::size_t)p[1] : 0; }
+	int recomb() const{ return p.size() >= 4 ? (int)p[2] : 2; }
+	double sigma() const{ return p.size() >= 4 ? p[3] : 0.0; }
+};
 typedef AbstractSingleObjectiveOptimizer<RealVector> OptBase;
 
 struct Trace{
@@ -128,7 +157,8 @@ struct Trace{
 
 static void fail(Trace& t, std::string const& w){ if(t.bad.empty()) t.bad = w; }
 
-static bool cholesky(RealMatrix const& C){
+// independent Cholesky factorisation (positive definiteness of a symmetric matrix)
+template<class M> static bool cholesky(M const& C){
 	std::size_t n = C.size1(); std::vector<double> L(n*n, 0.0);
 	for(std::size_t i = 0; i != n; ++i) for(std::size_t j = 0; j <= i; ++j){
 		double s = C(i,j);
@@ -138,24 +168,60 @@ static bool cholesky(RealMatrix const& C){
 	}
 	return true;
 }
+// a lower Cholesky factor kept by the algorithm: finite, positive diagonal (=> L L^T is symmetric positive definite)
+template<class M> static bool validFactor(M const& L){
+	for(std::size_t i = 0; i != L.size1(); ++i){
+		for(std::size_t j = 0; j != L.size2(); ++j) if(!std::isfinite(L(i,j))) return false;
+		if(!(L(i,i) > 0)) return false;
+	}
+	return true;
+}
 
 static OptBase* make(Config const& c){
-	if(c.kind == "cma"){
-		CMA* o = new CMA(random::globalRng);
-		if(c.p.size() >= 4 && c.p[0] > 0){ o->setLambda((std::size_t)c.p[0]); o->setMu((std::size_t)c.p[1]); }
-		if(c.p.size() >= 4){ o->m_recombinationType = (CMA::RecombinationType)(int)c.p[2]; if(c.p[3] > 0) o->setInitialSigma(c.p[3]); }
-		return o;
-	}
+	if(c.kind == "cma") return new CMA(random::globalRng);
 	if(c.kind == "cmsa") return new CMSA(random::globalRng);
 	if(c.kind == "ecma") return new ElitistCMA(random::globalRng);
 	if(c.kind == "vdcma") return new VDCMA(random::globalRng);
+	if(c.kind == "lmcma") return new LMCMA(random::globalRng);
 	if(c.kind == "cem") return new CrossEntropyMethod();
 	if(c.kind == "simplex") return new SimplexDownhill();
 	throw std::runtime_error("unknown optimizer " + c.kind);
 }
 
-// step size / distribution validity of the concrete classes
-static double stepSize(Config const& c, OptBase& o, Trace& t){
+// configure + init through the public interface of each class (user-set population sizes, recombination type, step size)
+static void initOpt(Config const& c, OptBase& o, Obj& f, RealVector const& x0){
+	std::size_t n = x0.size();
+	if(c.kind == "cma"){
+		CMA& m = static_cast<CMA&>(o);
+		if(c.lambda()){ m.setLambda(c.lambda()); m.setMu(c.mu()); }
+		if(c.p.size() >= 4){ m.recombinationType() = (CMA::RecombinationType)c.recomb(); if(c.sigma() > 0) m.setInitialSigma(c.sigma()); }
+		m.init(f, x0);
+	}else if(c.kind == "cmsa"){
+		CMSA& m = static_cast<CMSA&>(o);
+		if(c.lambda()){ m.setLambda(c.lambda()); m.setMu(c.mu()); }
+		if(c.sigma() > 0) m.setInitialSigma(c.sigma());
+		m.init(f, x0);
+	}else if(c.kind == "vdcma"){
+		VDCMA& m = static_cast<VDCMA&>(o);
+		if(c.lambda()) m.init(f, x0, c.lambda(), c.mu(), c.sigma() > 0 ? c.sigma() : 1.0 / std::sqrt((double)n));
+		else{ m.setInitialSigma(c.sigma()); m.init(f, x0); }
+	}else if(c.kind == "lmcma"){
+		LMCMA& m = static_cast<LMCMA&>(o);
+		if(c.lambda()) m.init(f, x0, (unsigned)c.lambda(), (double)c.mu(), c.sigma() > 0 ? c.sigma() : 1.0 / std::sqrt((double)n));
+		else m.init(f, x0);
+	}else if(c.kind == "cem"){
+		CrossEntropyMethod& m = static_cast<CrossEntropyMethod&>(o);
+		if(c.lambda()) m.init(f, x0, (unsigned)c.lambda(), (unsigned)c.mu(), RealVector(n, c.sigma() > 0 ? c.sigma() : 100.0));
+		else{ m.init(f, x0); if(c.sigma() > 0) m.setVariance(c.sigma()); }
+	}else if(c.kind == "ecma"){
+		ElitistCMA& m = static_cast<ElitistCMA&>(o);
+		m.init(f, x0);
+		if(c.sigma() > 0) m.sigma() = c.sigma();
+	}else o.init(f, x0);
+}
+
+// validity of the search distribution of the concrete classes; returns the step size
+static double checkState(Config const& c, OptBase& o, Trace& t){
 	if(c.kind == "cma"){
 		CMA& m = static_cast<CMA&>(o);
 		RealMatrix const& C = m.covarianceMatrix();
@@ -173,40 +239,81 @@ static double stepSize(Config const& c, OptBase& o, Trace& t){
 				}
 			}
 		if(!cholesky(C)) fail(t, "covariance-not-positive-definite");
+		if(!finiteVec(m.mean()) || !finiteVec(m.evolutionPath()) || !finiteVec(m.evolutionPathSigma())) fail(t, "mean-or-path-non-finite");
+		// weights: positive, non-increasing in the rank, sum 1; learning rates in their admissible ranges
+		RealVector const& w = m.weights(); double sw = 0; bool ok = w.size() == m.mu();
+		for(std::size_t i = 0; i != w.size(); ++i){ sw += w(i); ok = ok && w(i) > 0 && (i == 0 || w(i) <= w(i-1)); }
+		if(!ok || std::fabs(sw - 1) > 1e-12) fail(t, "weights-inadmissible");
+		if(!(m.m_c1 > 0) || !(m.m_cMu >= 0) || !(m.m_c1 + m.m_cMu <= 1) || !(m.m_cSigma > 0 && m.m_cSigma < 1) || !(m.m_cC > 0 && m.m_cC <= 1) || !(m.m_dSigma >= 1) || !(m.m_muEff >= 1 - 1e-12))
+			fail(t, "coefficients-inadmissible");
 		return m.sigma();
 	}
-	if(c.kind == "cmsa") return static_cast<CMSA&>(o).sigma();
-	if(c.kind == "ecma") return static_cast<ElitistCMA&>(o).sigma();
-	if(c.kind == "vdcma") return static_cast<VDCMA&>(o).sigma();
+	if(c.kind == "cmsa"){
+		CMSA& m = static_cast<CMSA&>(o);
+		if(!validFactor(m.m_mutationDistribution.lowerCholeskyFactor())) fail(t, "covariance-not-positive-definite");
+		if(!finiteVec(m.m_mean)) fail(t, "mean-or-path-non-finite");
+		if(!(m.m_cC > 1) || !(m.m_cSigma > 0)) fail(t, "coefficients-inadmissible");
+		return m.sigma();
+	}
+	if(c.kind == "ecma"){
+		ElitistCMA& m = static_cast<ElitistCMA&>(o);
+		CMAChromosome const& ch = m.m_individual.chromosome();
+		if(!validFactor(ch.m_mutationDistribution.lowerCholeskyFactor())) fail(t, "covariance-not-positive-definite");
+		if(!finiteVec(ch.m_evolutionPath)) fail(t, "mean-or-path-non-finite");
+		if(!(ch.m_successProbability >= 0 && ch.m_successProbability <= 1)) fail(t, "success-probability-out-of-range");
+		return m.sigma();
+	}
+	if(c.kind == "vdcma"){
+		VDCMA& m = static_cast<VDCMA&>(o);
+		// C = D (I + v v^T) D is symmetric positive definite iff D is finite without zero entry and v is finite
+		bool ok = finiteVec(m.m_D) && finiteVec(m.m_vn) && std::isfinite(m.m_normv) && m.m_normv > 0;
+		for(std::size_t i = 0; ok && i != m.m_D.size(); ++i) ok = m.m_D(i) != 0;
+		if(!ok) fail(t, "covariance-not-positive-definite");
+		if(!finiteVec(m.mean()) || !finiteVec(m.evolutionPath()) || !finiteVec(m.evolutionPathSigma())) fail(t, "mean-or-path-non-finite");
+		return m.sigma();
+	}
+	if(c.kind == "lmcma"){
+		LMCMA& m = static_cast<LMCMA&>(o);
+		if(!finiteVec(m.mean()) || !finiteVec(m.evolutionPath())) fail(t, "mean-or-path-non-finite");
+		return m.sigma();
+	}
 	if(c.kind == "cem"){
-		RealVector const& v = static_cast<CrossEntropyMethod&>(o).variance();
-		double mn = 1e300; bool ok = true;
-		for(std::size_t i = 0; i != v.size(); ++i){ ok = ok && std::isfinite(v(i)) && v(i) >= 0; mn = std::min(mn, v(i)); }
+		CrossEntropyMethod& m = static_cast<CrossEntropyMethod&>(o);
+		RealVector const& v = m.variance(); bool ok = true;
+		for(std::size_t i = 0; i != v.size(); ++i) ok = ok && std::isfinite(v(i)) && v(i) >= 0;
 		if(!ok) fail(t, "variance-invalid");
+		if(!finiteVec(m.mean())) fail(t, "mean-or-path-non-finite");
 		return 1.0;
+	}
+	if(c.kind == "simplex"){
+		SimplexDownhill& m = static_cast<SimplexDownhill&>(o);
+		// the reported best is the best of everything evaluated so far, in particular of the current simplex
+		for(auto const& s: m.simplex()){
+			if(!finiteVec(s.point) || !std::isfinite(s.value)) fail(t, "non-finite");
+			if(!(m.solution().value <= s.value)) fail(t, "best-worse-than-simplex-vertex");
+		}
 	}
 	return 1.0;
 }
 
-static Trace runOnce(Config const& c, Obj& f, int phi, unsigned seed, std::size_t steps, RealVector const& x0){
+// init (of a fresh or of an already used object) + steps, with the per-step oracle
+static Trace runOnce(Config const& c, OptBase& o, Obj& f, int phi, unsigned seed, std::size_t steps, RealVector const& x0){
 	Trace t;
 	f.phi = phi;
 	random::globalRng.seed(seed);
-	std::unique_ptr<OptBase> o(make(c));
-	o->init(f, x0);
-	bool elitist = c.kind == "ecma" || c.kind == "simplex";
+	initOpt(c, o, f, x0);
+	bool elitist = (c.kind == "ecma" && !f.soft) || c.kind == "simplex";
 	for(std::size_t s = 0; s <= steps; ++s){
-		if(s) o->step(f);
-		RealVector const& p = o->solution().point; double v = o->solution().value;
+		if(s) o.step(f);
+		RealVector const& p = o.solution().point; double v = o.solution().value;
 		t.pts.push_back(p); t.vals.push_back(v);
-		bool finite = std::isfinite(v);
-		for(std::size_t i = 0; i != p.size(); ++i) finite = finite && std::isfinite(p(i));
+		bool finite = std::isfinite(v) && finiteVec(p);
 		if(!finite) fail(t, "non-finite");
 		if(phi == 0 && finite){
 			double ref = f.reference(p);
 			if(!sameBits(ref, v)) fail(t, "value-not-f-of-closest-feasible-point");
 		}
-		double sg = stepSize(c, *o, t);
+		double sg = checkState(c, o, t);
 		t.sig.push_back(sg);
 		if(!(sg > 0) || !std::isfinite(sg)) fail(t, "step-size-not-positive");
 		if(elitist && s && !(v <= t.vals[s-1])) fail(t, "elitist-value-increased");
@@ -220,7 +327,152 @@ static std::uint64_t digest(Trace const& t){
 	auto mix = [&](double d){ std::uint64_t b; std::memcpy(&b, &d, 8); if(d == 0) b = 0; h = (h ^ b) * 1099511628211ULL; };
 	for(auto const& p: t.pts) for(std::size_t i = 0; i != p.size(); ++i) mix(p(i));
 	for(double s: t.sig) mix(s);
+	for(double v: t.vals) mix(v);
 	return h;
+}
+
+// ---------------------------------------------------------------- strategy constants
+static void coeffsOp(std::vector<std::string> const& t, std::ostringstream& out){
+	Config c; c.kind = t.at(1);
+	std::size_t n = std::stoul(t.at(2)), lambda = std::stoul(t.at(3)), mu = std::stoul(t.at(4)); int rec = std::stoi(t.at(5));
+	c.p = {(double)lambda, (double)mu, (double)rec, 0.0};
+	Obj f; f.kind = 2; f.n = n;
+	RealVector x0(n, 0.0);
+	random::globalRng.seed(1);
+	std::unique_ptr<OptBase> o(make(c));
+	initOpt(c, *o, f, x0);
+	bool bad = false;
+	if(c.kind == "cma"){
+		CMA& m = static_cast<CMA&>(*o);
+		out << "lambda=" << m.lambda() << " mu=" << m.mu() << " c=" << hexd(m.m_cC) << "," << hexd(m.m_c1) << "," << hexd(m.m_cMu) << ","
+		    << hexd(m.m_cSigma) << "," << hexd(m.m_dSigma) << "," << hexd(m.m_muEff) << " w=" << hexVec(m.m_weights);
+		double sw = 0; bool pos = m.m_weights.size() == m.mu();
+		for(std::size_t i = 0; i != m.m_weights.size(); ++i){ sw += m.m_weights(i); pos = pos && m.m_weights(i) > 0 && (i == 0 || m.m_weights(i) <= m.m_weights(i-1)); }
+		if(!pos || std::fabs(sw - 1) > 1e-12) out << " !oracle weights-inadmissible";
+		bad = !(m.m_c1 > 0) || !(m.m_cMu >= 0) || !(m.m_cMu <= 1 - m.m_c1) || !(m.m_cSigma > 0 && m.m_cSigma < 1) || !(m.m_cC > 0 && m.m_cC <= 1) || !(m.m_dSigma >= 1) || !(m.m_muEff >= 1 - 1e-12) || m.m_counter != 0;
+	}else if(c.kind == "cmsa"){
+		CMSA& m = static_cast<CMSA&>(*o);
+		out << "lambda=" << m.lambda() << " mu=" << m.mu() << " c=" << hexd(m.m_cSigma) << "," << hexd(m.m_cC);
+		bad = !(m.m_cSigma > 0) || !(m.m_cC > 1) || !std::isfinite(m.m_cC);
+	}else if(c.kind == "vdcma"){
+		VDCMA& m = static_cast<VDCMA&>(*o);
+		out << "lambda=" << m.lambda() << " mu=" << m.mu() << " c=" << hexd(m.m_muEff) << "," << hexd(m.m_cSigma) << "," << hexd(m.m_dSigma) << ","
+		    << hexd(m.m_cC) << "," << hexd(m.m_c1) << "," << hexd(m.m_cMu) << " w=" << hexVec(m.m_weights);
+		double sw = 0; bool pos = true;
+		for(std::size_t i = 0; i != m.m_weights.size(); ++i){ sw += m.m_weights(i); pos = pos && m.m_weights(i) > 0 && (i == 0 || m.m_weights(i) <= m.m_weights(i-1)); }
+		if(!pos || std::fabs(sw - 1) > 1e-12) out << " !oracle weights-inadmissible";
+		// learning rates of the rank-one / rank-mu natural-gradient step: positive, and their sum at most 1
+		bad = !(m.m_c1 > 0) || !(m.m_cMu >= 0) || !(m.m_c1 + m.m_cMu <= 1) || !(m.m_cSigma > 0 && m.m_cSigma < 1) || !(m.m_cC > 0 && m.m_cC <= 1) || !(m.m_dSigma >= 1);
+	}else if(c.kind == "ecma"){
+		CMAChromosome const& ch = static_cast<ElitistCMA&>(*o).m_individual.chromosome();
+		out << "c=" << hexd(ch.m_targetSuccessProbability) << "," << hexd(ch.m_stepSizeDampingFactor) << "," << hexd(ch.m_stepSizeLearningRate) << ","
+		    << hexd(ch.m_evolutionPathLearningRate) << "," << hexd(ch.m_covarianceMatrixLearningRate) << "," << hexd(ch.m_covarianceMatrixUnlearningRate);
+		bad = !(ch.m_targetSuccessProbability > 0 && ch.m_targetSuccessProbability < 1) || !(ch.m_stepSizeDampingFactor >= 1)
+		   || !(ch.m_stepSizeLearningRate > 0 && ch.m_stepSizeLearningRate < 1) || !(ch.m_evolutionPathLearningRate > 0 && ch.m_evolutionPathLearningRate <= 1)
+		   || !(ch.m_covarianceMatrixLearningRate > 0 && ch.m_covarianceMatrixLearningRate < 1) || !(ch.m_covarianceMatrixUnlearningRate > 0 && ch.m_covarianceMatrixUnlearningRate < 1);
+	}else if(c.kind == "lmcma"){
+		LMCMA& m = static_cast<LMCMA&>(*o);
+		out << "lambda=" << m.lambda() << " mu=" << m.mu() << " c=" << hexd(m.m_A.m_alpha) << "," << hexd(m.m_cC);
+		bad = !(m.m_A.m_alpha > 0 && m.m_A.m_alpha < 1) || !(m.m_cC > 0 && m.m_cC <= 1);
+	}else throw std::runtime_error("bad-op");
+	if(bad) out << " !oracle coefficients-inadmissible";
+}
+
+// ---------------------------------------------------------------- per-step traces for the one-step refinement by the Lean models
+static void ecmaTrace(Config const& cfg, Obj& f, unsigned seed, std::size_t steps, RealVector const& x0, std::ostringstream& out){
+	random::globalRng.seed(seed);
+	std::unique_ptr<OptBase> ob(make(cfg)); ElitistCMA& m = static_cast<ElitistCMA&>(*ob);
+	initOpt(cfg, m, f, x0);
+	out << "trace n=" << f.n << " active=" << (m.activeUpdate() ? 1 : 0);
+	auto state = [&](){
+		CMAChromosome const& ch = m.m_individual.chromosome();
+		std::ostringstream os;
+		os << "S=" << hexd(ch.m_stepSize) << " P=" << hexd(ch.m_successProbability) << " TH=" << hexd(ch.m_successThreshold) << " PC=" << hexVec(ch.m_evolutionPath)
+		   << " L=" << hexMatG(ch.m_mutationDistribution.lowerCholeskyFactor()) << " AF=";
+		for(std::size_t i = 0; i != m.m_ancestralFitness.size(); ++i){ if(i) os << ","; os << hexd(m.m_ancestralFitness[i]); }
+		os << " BP=" << hexVec(m.solution().point) << " BV=" << hexd(m.solution().value) << " X=" << hexVec(m.m_individual.searchPoint());
+		return os.str();
+	};
+	for(std::size_t s = 0; s != steps; ++s){
+		out << " | " << state();
+		bool threw = false;
+		try{ m.step(f); }catch(std::exception const&){ threw = true; }
+		CMAChromosome const& ch = m.m_individual.chromosome();
+		out << " Z=" << hexVec(ch.m_lastZ) << " Y=" << hexVec(ch.m_lastStep) << " FP=" << hexd(m.m_individual.penalizedFitness())
+		    << " FU=" << hexd(m.m_individual.unpenalizedFitness()) << " threw=" << (threw ? 1 : 0) << " > " << state();
+		if(threw) break;
+	}
+}
+
+static void cmsaTrace(Config const& cfg, Obj& f, unsigned seed, std::size_t steps, RealVector const& x0, std::ostringstream& out){
+	random::globalRng.seed(seed);
+	std::unique_ptr<OptBase> ob(make(cfg)); CMSA& m = static_cast<CMSA&>(*ob);
+	initOpt(cfg, m, f, x0);
+	out << "trace n=" << f.n << " lambda=" << m.lambda() << " mu=" << m.mu();
+	for(std::size_t s = 0; s != steps; ++s){
+		std::vector<CMSA::IndividualType> off = m.generateOffspring();
+		PenalizingEvaluator ev; ev(f, off.begin(), off.end());
+		out << " | S=" << hexd(m.m_sigma) << " M=" << hexVec(m.m_mean) << " L=" << hexMatG(m.m_mutationDistribution.lowerCholeskyFactor()) << " F=";
+		for(std::size_t i = 0; i != off.size(); ++i){ if(i) out << ","; out << hexd(off[i].unpenalizedFitness()); }
+		out << " X=";
+		for(std::size_t i = 0; i != off.size(); ++i){ if(i) out << ","; out << hexVec(off[i].searchPoint()); }
+		out << " Y=";
+		for(std::size_t i = 0; i != off.size(); ++i){ if(i) out << ","; out << hexVec(off[i].chromosome().step); }
+		out << " SI=";
+		for(std::size_t i = 0; i != off.size(); ++i){ if(i) out << ","; out << hexd(off[i].chromosome().sigma); }
+		m.updatePopulation(off);
+		out << " > S=" << hexd(m.m_sigma) << " M=" << hexVec(m.m_mean) << " L=" << hexMatG(m.m_mutationDistribution.lowerCholeskyFactor())
+		    << " BP=" << hexVec(m.solution().point) << " BV=" << hexd(m.solution().value);
+	}
+}
+
+// CrossEntropyMethod::step does not expose its offspring: an objective wrapper records the evaluated points in order
+struct Recorder: public SingleObjectiveFunction{
+	Obj& f; mutable std::vector<RealVector> xs; mutable std::vector<double> vs;
+	Recorder(Obj& f): f(f){ m_features |= HAS_VALUE; }
+	std::string name() const{ return "recorder"; }
+	std::size_t numberOfVariables() const{ return f.n; }
+	bool isFeasible(RealVector const& x) const{ return f.isFeasible(x); }
+	void closestFeasible(RealVector& x) const{ f.closestFeasible(x); }
+	double eval(RealVector const& x) const{ double v = f.eval(x); xs.push_back(x); vs.push_back(v); return v; }
+};
+static void cemTrace(Config const& cfg, Obj& f, unsigned seed, std::size_t steps, RealVector const& x0, std::ostringstream& out){
+	random::globalRng.seed(seed);
+	CrossEntropyMethod m;
+	Recorder rec(f);
+	{
+		std::size_t n = x0.size();
+		if(cfg.lambda()) m.init(rec, x0, (unsigned)cfg.lambda(), (unsigned)cfg.mu(), RealVector(n, cfg.sigma() > 0 ? cfg.sigma() : 100.0));
+		else m.init(rec, x0);
+	}
+	out << "trace n=" << f.n << " lambda=" << m.populationSize() << " mu=" << m.selectionSize();
+	for(std::size_t s = 0; s != steps; ++s){
+		out << " | M=" << hexVec(m.mean()) << " V=" << hexVec(m.variance());
+		rec.xs.clear(); rec.vs.clear();
+		m.step(rec);
+		out << " F=";
+		for(std::size_t i = 0; i != rec.vs.size(); ++i){ if(i) out << ","; out << hexd(rec.vs[i]); }
+		out << " X=";
+		for(std::size_t i = 0; i != rec.xs.size(); ++i){ if(i) out << ","; out << hexVec(rec.xs[i]); }
+		out << " > M=" << hexVec(m.mean()) << " V=" << hexVec(m.variance()) << " BP=" << hexVec(m.solution().point) << " BV=" << hexd(m.solution().value);
+	}
+}
+
+static void simplexRun(Obj& f, std::size_t steps, RealVector const& x0, std::ostringstream& out){
+	SimplexDownhill m;
+	m.init(f, x0);
+	auto state = [&](){
+		std::ostringstream os;
+		os << "BP=" << hexVec(m.solution().point) << " BV=" << hexd(m.solution().value) << " SX=";
+		bool first = true;
+		for(auto const& s: m.simplex()){ if(!first) os << ","; first = false; os << hexVec(s.point); }
+		os << " SV=";
+		first = true;
+		for(auto const& s: m.simplex()){ if(!first) os << ","; first = false; os << hexd(s.value); }
+		return os.str();
+	};
+	out << "simplex " << state();
+	for(std::size_t s = 0; s != steps; ++s){ m.step(f); out << " | " << state(); }
 }
 
 int main(){
@@ -234,7 +486,7 @@ int main(){
 			if(t.empty()){ std::cout << "\n"; continue; }
 			if(t[0] == "obj"){
 				f.reset(new Obj());
-				f->kind = t.at(1) == "quad" ? 0 : (t.at(1) == "rosen" ? 1 : 2);
+				f->kind = t.at(1) == "quad" ? 0 : (t.at(1) == "rosen" ? 1 : (t.at(1) == "plateau" ? 3 : 2));
 				f->n = std::stoul(t.at(2));
 				if(f->kind == 0){
 					if(t.size() != 3 + f->n * f->n + f->n) throw std::runtime_error("bad-op");
@@ -259,39 +511,44 @@ int main(){
 				if(t.size() != 4 + f->n) throw std::runtime_error("bad-op");
 				RealVector x0(f->n);
 				for(std::size_t k = 0; k != f->n; ++k) x0(k) = bits2d(t[4+k]);
-				Trace a = runOnce(cfg, *f, 0, seed, steps, x0);
-				Trace b = runOnce(cfg, *f, 0, seed, steps, x0);
+				std::unique_ptr<OptBase> o1(make(cfg)), o2(make(cfg));
+				Trace a = runOnce(cfg, *o1, *f, 0, seed, steps, x0);
+				Trace b = runOnce(cfg, *o2, *f, 0, seed, steps, x0);
+				Trace r = runOnce(cfg, *o1, *f, 0, seed, steps, x0);    // the object used for run a, initialised again
 				out << "final pt=" << showVec(a.pts.back()) << " val=" << vh::exactDouble(a.vals.back())
 				    << " sigma=" << vh::exactDouble(a.sig.back()) << " digest=" << digest(a);
 				if(!a.bad.empty()) out << " !oracle " << a.bad;
-				if(digest(a) != digest(b) || !sameBits(a.vals.back(), b.vals.back())) out << " !oracle same-seed-different-run";
+				if(digest(a) != digest(b)) out << " !oracle same-seed-different-run";
+				if(digest(a) != digest(r)) out << " !oracle reinitialised-object-different-run";
 				for(int phi = 1; phi <= 3; ++phi){
-					Trace c = runOnce(cfg, *f, phi, seed, steps, x0);
+					std::unique_ptr<OptBase> o3(make(cfg));
+					Trace c = runOnce(cfg, *o3, *f, phi, seed, steps, x0);
 					bool same = c.pts.size() == a.pts.size();
 					// the rescalings are exact (and hence exactly order preserving) only away from underflow:
 					// the comparison stops once a reported value drops below 1e-200 in modulus
 					for(std::size_t s = 0; same && s != a.pts.size(); ++s){
-						if(std::fabs(a.vals[s]) < 1e-200) break;
+						if(std::fabs(a.vals[s]) < 1e-200 && a.vals[s] != 0) break;
 						same = sameVec(a.pts[s], c.pts[s]) && sameBits(a.sig[s], c.sig[s]);
 					}
 					if(!same){ out << " !oracle not-rank-invariant phi=" << phi; break; }
 				}
-				if(!(a.vals.back() <= target)) out << " !oracle not-converged " << a.vals.back();
+				if(std::isfinite(target) && !(a.vals.back() <= target)) out << " !oracle not-converged " << a.vals.back();
 			}else if(t[0] == "coeffs"){
-				std::size_t n = std::stoul(t.at(1)), lambda = std::stoul(t.at(2)), mu = std::stoul(t.at(3)); int rec = std::stoi(t.at(4));
-				CMA cma(random::globalRng);
-				cma.m_recombinationType = (CMA::RecombinationType)rec;
-				std::vector<RealVector> pts(1, RealVector(n, 0.0)); std::vector<double> vals(1, 0.0);
-				if(lambda == 0){ lambda = CMA::suggestLambda(n); mu = CMA::suggestMu(lambda, (CMA::RecombinationType)rec); }
-				cma.doInit(pts, vals, lambda, mu, 1.0);
-				out << "lambda=" << lambda << " mu=" << mu << " c=" << hexd(cma.m_cC) << "," << hexd(cma.m_c1) << "," << hexd(cma.m_cMu) << ","
-				    << hexd(cma.m_cSigma) << "," << hexd(cma.m_dSigma) << "," << hexd(cma.m_muEff) << " w=" << hexVec(cma.m_weights);
-				// admissibility oracle on the real coefficients
-				double sw = 0; bool pos = true;
-				for(std::size_t i = 0; i != cma.m_weights.size(); ++i){ sw += cma.m_weights(i); pos = pos && cma.m_weights(i) > 0; }
-				if(mu >= 1 && (!pos || std::fabs(sw - 1) > 1e-12)) out << " !oracle weights-inadmissible";
-				if(!(cma.m_c1 > 0) || !(cma.m_cMu >= 0) || !(cma.m_cMu <= 1 - cma.m_c1) || !(cma.m_cSigma > 0 && cma.m_cSigma < 1) || !(cma.m_cC > 0 && cma.m_cC <= 1) || !(cma.m_dSigma >= 1))
-					out << " !oracle coefficients-inadmissible";
+				coeffsOp(t, out);
+			}else if(t[0] == "ecmatrace" || t[0] == "cmsatrace" || t[0] == "cemtrace"){
+				unsigned seed = (unsigned)std::stoul(t.at(1)); std::size_t steps = std::stoul(t.at(2));
+				if(t.size() != 3 + f->n) throw std::runtime_error("bad-op");
+				RealVector x0(f->n);
+				for(std::size_t k = 0; k != f->n; ++k) x0(k) = bits2d(t[3+k]);
+				if(t[0] == "ecmatrace") ecmaTrace(cfg, *f, seed, steps, x0, out);
+				else if(t[0] == "cmsatrace") cmsaTrace(cfg, *f, seed, steps, x0, out);
+				else cemTrace(cfg, *f, seed, steps, x0, out);
+			}else if(t[0] == "simplexrun"){
+				std::size_t steps = std::stoul(t.at(1));
+				if(t.size() != 2 + f->n) throw std::runtime_error("bad-op");
+				RealVector x0(f->n);
+				for(std::size_t k = 0; k != f->n; ++k) x0(k) = bits2d(t[2+k]);
+				simplexRun(*f, steps, x0, out);
 			}else if(t[0] == "cmatrace"){
 				unsigned seed = (unsigned)std::stoul(t.at(1)); std::size_t steps = std::stoul(t.at(2));
 				if(t.size() != 3 + f->n) throw std::runtime_error("bad-op");
@@ -299,7 +556,7 @@ int main(){
 				for(std::size_t k = 0; k != f->n; ++k) x0(k) = bits2d(t[3+k]);
 				random::globalRng.seed(seed);
 				std::unique_ptr<OptBase> ob(make(cfg)); CMA& cma = static_cast<CMA&>(*ob);
-				cma.init(*f, x0);
+				initOpt(cfg, cma, *f, x0);
 				out << "trace n=" << f->n << " lambda=" << cma.m_lambda << " mu=" << cma.m_mu << " rec=" << (int)cma.m_recombinationType;
 				for(std::size_t s = 0; s != steps; ++s){
 					// one step, split exactly as CMA::step does for a noise-free function
